@@ -29,7 +29,8 @@ Print Assumptions C17_deterministic.
 
 (* queries on a module whose program is rejected keep being answered from that same program *)
 Theorem C17_answers_depend_on_program m m' o :
-  program_query o = true -> sp_prog m = sp_prog m' -> sp_q2 m = sp_q2 m' -> snd (query m o) = snd (query m' o).
+  program_query o = true -> sp_prog m = sp_prog m' -> sp_q2 m = sp_q2 m' ->
+  (view_query o = true -> sp_unrolled m = sp_unrolled m') -> snd (query m o) = snd (query m' o).
 Proof. exact (answers_depend_on_program m m' o). Qed.
 Print Assumptions C17_answers_depend_on_program.
 
